@@ -6,6 +6,7 @@ Case lines
   3 i k code a b          op for node i in its k-th user-code run (k=-1 start hook, k=-2 default)
      code 1 schedule(now+a, tag b)  2 un_schedule(tag b)  3 un_schedule()  4 pop_tag(b)  5 reset()
           6 emit a + sum(valid inputs)  7 graph.schedule_node(self, now+a)  8 throw
+          9 input[a].make_passive()  10 input[a].make_active()   (run-time activation)
 Observation lines
   10 t                     root cycle at t
   11 i t                   node i evaluated by the graph at t
@@ -102,6 +103,8 @@ def gen(rng, tier, prop):
                         ops.append([7, -1, 0])
                     elif r < 0.985:
                         ops.append([8, 0, 0])
+                    elif ins:
+                        ops.append([rng.choice([9, 9, 10]), rng.randrange(len(ins)), 0])
                 if not ops:
                     ops = [[0, 0, 0]]  # explicit empty script for run k (overrides the default)
                 for op in ops:
@@ -171,6 +174,7 @@ def oracle(prop, case, out):
         else:
             raw_dropped.add(w)
     outv = [None] * n                            # (value, time) of last emission
+    act = [[bool(a) for (_s, a, _r) in nd["ins"]] for nd in nodes]   # current activity of every input (run-time make_active / make_passive)
     emitted_at = {}                              # (node, t) -> True
     err = any(l[0] == 19 for l in out)
     cycles = [l[1] for l in out if l[0] == 10]
@@ -247,6 +251,7 @@ def oracle(prop, case, out):
 
     open_eval = None
     cur_raw = {}
+    woke = {}
     while pos < L:
         l = out[pos]
         if l[0] == 10:
@@ -283,8 +288,8 @@ def oracle(prop, case, out):
             elif raw[i] is not None:
                 raw_dropped.add(raw[i])   # the slot is consumed by this earlier evaluation (min semantics, by design)
             raw[i] = None
-            for (src, act, _req) in nodes[i]["ins"]:
-                if act and emitted_at.get((src, t)):
+            for s_i, (src, _a, _req) in enumerate(nodes[i]["ins"]):
+                if woke.get((i, t, s_i)):
                     why.append("input")
             if not why:
                 kind = "spurious_eval_abandoned" if t in abandoned[i] else "spurious_eval"
@@ -354,6 +359,8 @@ def oracle(prop, case, out):
                     elif a == 0 and raw[i] is not None:
                         raw_dropped.add(raw[i])   # schedule_now while being evaluated overrides a later raw request
                         raw[i] = None
+                elif code in (9, 10) and 0 <= a < len(nd["ins"]):
+                    act[i][a] = (code == 10)
                 elif code == 6 and nd["ho"]:
                     pass
                 opi += 1
@@ -361,6 +368,10 @@ def oracle(prop, case, out):
             i, t, v = l[1], l[2], l[3]
             outv[i] = (v, t)
             emitted_at[(i, t)] = True
+            for j in range(n):                    # which inputs are subscribed at the moment of the write
+                for s_j, (src, _a, _r) in enumerate(nodes[j]["ins"]):
+                    if src == i and act[j][s_j]:
+                        woke[(j, t, s_j)] = True
         pos += 1
     if open_eval is not None:
         finish_eval(*open_eval)
@@ -384,8 +395,8 @@ def oracle(prop, case, out):
                 fails.append((kind, "cycle at %d: nothing (still) requested it; evaluated nodes %s" % (t, sorted(evs))))
             # C03: an active input ticked => the consumer is evaluated in that cycle
             for i in range(n):
-                for (src, act, _r) in nodes[i]["ins"]:
-                    if act and emitted_at.get((src, t)) and i not in evs:
+                for s_i, (src, _a, _r) in enumerate(nodes[i]["ins"]):
+                    if woke.get((i, t, s_i)) and i not in evs:
                         fails.append(("not_evaluated", "node %d not evaluated at %d although active input from %d ticked" % (i, t, src)))
     # emitted value is the function of the inputs read
     return fails
